@@ -36,6 +36,9 @@ def c01(run):
     drive(run, "basic", ["map:kv16:collide:24:%d:basic" % (900 * n), "map:kv24:max:20:%d:basic" % (400 * n),
                          "map:k4v4:fewpos:30:%d:basic" % (500 * n), "map:kv16:onegroup:12:%d:basic" % (400 * n)])
     drive(run, "entry", ["map:kv16:zero:14:%d:entry" % (600 * n), "map:kv16:mixed:40:%d:wide" % (700 * n)])
+    run.trace(**corpus_job(run, 16))
+    if not quick:
+        run.trace(**corpus_job(run, 8))
     if not quick:
         drive(run, "wide2", ["map:kv200:posfix:30:3000:wide", "map:kva64:tagfix:30:3000:wide", "map:k1v4:lowbit:12:2000:wide",
                              "map:kv16:seq:48:4000:basic"])
@@ -45,26 +48,81 @@ def c01(run):
                            "traces: random walks over the HashMap API under adversarial plan families, every step validated")
 
 
-def generic_check(run, models_q, models_t, jobs_q, jobs_t, rule):
+def corpus_job(run, W=16):
+    """Replay of the TLC-generated behaviour corpus (spec -> impl), see bin/gen-corpus."""
+    return {"name": "corpus_w%d" % W, "backend": "sse2" if W == 16 else "generic",
+            "args": ["replay", "--seed", str(run.seed), os.path.join(vlib.VERIF, "corpus", "map_w%d.ndjson" % W)]}
+
+
+def generic_check(run, models_q, models_t, jobs_q, jobs_t, rule, corpus=False):
     quick = run.tier == Q
     run.assumptions += COMMON_ASSUMPTIONS
     for m in (models_q if quick else models_q + models_t):
         run.model(*m[:2], **(m[2] if len(m) > 2 else {}))
     jobs = jobs_q if quick else jobs_q + jobs_t
-    run.traces_parallel([job(run, *j[:2], **(j[2] if len(j) > 2 else {})) for j in jobs])
+    jl = [job(run, *j[:2], **(j[2] if len(j) > 2 else {})) for j in jobs]
+    if corpus:
+        jl.append(corpus_job(run, 16))
+        if not quick:
+            jl.append(corpus_job(run, 8))
+    run.traces_parallel(jl)
+    try:
+        with open(os.path.join(vlib.VERIF, "corpus", "SUMMARY.json")) as f:
+            run.extra["generated_behaviour_corpus"] = json.load(f)
+    except OSError:
+        pass
     return run.finish(rule=rule)
 
 
 G = {"backend": "generic"}
 
 
+def c02(run):
+    F = "fault=12"
+    return generic_check(run, [("MC_map_w2q.cfg", "MC_map.tla", {"timeout": 300})], [("MC_map_w2fault.cfg", "MC_map.tla", {"timeout": 600})],
+        [("lay_map", ["map:kv16:collide:24:500:wide:" + F, "map:kv200:zero:14:300:wide", "map:kva64:fewpos:20:300:wide:" + F,
+                      "map:kva32:max:16:250:iter", "map:k1v4:onegroup:12:300:wide", "map:k3v4:collide:14:250:wide", "map:k4v4:zero:14:300:fault:fault=25"]),
+         ("lay_set", ["set:k1:collide:30:400:set", "set:k2:zero:14:250:set", "set:k3:fewpos:20:250:set", "set:k5:max:14:200:set",
+                      "set:k6:collide:20:250:setalg", "set:k7:onegroup:12:200:set", "set:k8t:collide:20:400:setalg:" + F]),
+         ("lay_table", ["table:te24:collide:20:400:table:" + F, "table:te208:zero:12:250:table", "table:tea64:fewpos:16:250:table", "table:t1:collide:30:300:table"])],
+        [("lay2", ["map:kv24:collide:24:3000:wide:" + F, "map:k5v4:zero:14:2000:wide", "set:k8:mixed:40:2000:set", "table:te32:lowbit:14:2000:table:" + F]),
+         ("layg", ["map:kv16:collide:24:2000:wide:" + F, "map:kva64:zero:14:1000:iter", "set:k3:collide:20:1000:set", "table:te24:zero:12:1500:table"], G)],
+        "layout matrix (element sizes 1..208, alignments 1..64, with / without drop glue) x collection kinds x hash plans incl. all-colliding, with leaked "
+        "drains and injected callback panics; the structural invariant (exactly the preconditions of the unsafe blocks) is evaluated on every observed state; "
+        "checking allocator (red zones, layout match), element registry and debug assertions observe the implementation side", corpus=True)
+
+
+def c04(run):
+    return generic_check(run, [("MC_map_w2fault.cfg", "MC_map.tla", {"timeout": 400})], [],
+        [("fault", ["map:kv16:collide:20:1300:fault:fault=30,plan2=fewpos", "map:k4v4:zero:14:700:fault:fault=30,plan2=collide"]),
+         ("fault2", ["set:k8t:collide:20:600:setalg:fault=25,plan2=mixed", "table:te24:zero:14:600:table:fault=25", "map:kv24:onegroup:12:500:fault:fault=30"])],
+        [("fault3", ["map:kv16:collide:20:5000:fault:fault=30,plan2=fewpos", "map:k8v4:max:20:3000:fault:fault=35", "map:kv200:fewpos:24:2000:fault:fault=30"]),
+         ("fault4", ["set:k8t:zero:14:3000:set:fault=25", "table:te208:collide:20:3000:table:fault=25", "map:kv16:collide:20:2000:two:fault=40,fclass=bh_clone,plan2=fewpos"]),
+         ("faultg", ["map:kv16:collide:20:3000:fault:fault=30,plan2=fewpos", "map:k4v4:zero:14:2000:fault:fault=30"], G)],
+        "model: every reachable small-scope state x operation x k-th hasher invocation panics (scope guards as written in the code); "
+        "code: random fault injection (Hash, Eq, Clone, Drop, BuildHasher::clone) at the k-th invocation, post-unwind state validated")
+
+
+def c05(run):
+    return generic_check(run, [], [],
+        [("chaos", ["map:kv16:zero:16:1200:wide:chaos=1", "map:kv16:collide:20:600:wide:chaoseq=1", "map:k4v4:zero:14:500:basic:chaos=1,chaoseq=1"]),
+         ("chaos2", ["map:kv24:fewpos:24:900:iter:chaos=1", "map:kv16:max:16:700:two:chaos=1", "map:kv16:zero:14:500:entry:chaoseq=1"])],
+        [("chaos3", ["map:kv16:zero:16:6000:wide:chaos=1", "map:kv200:collide:20:3000:wide:chaos=1,chaoseq=1", "map:kva64:zero:14:2000:cap:chaos=1"]),
+         ("chaosg", ["map:kv16:zero:16:3000:wide:chaos=1", "map:kv16:collide:20:2000:entry:chaoseq=1"], G)],
+        "hash functions / equality predicates that give a fresh pseudo-random answer on every call (answers logged); the safety subset of the "
+        "invariant, len = stored elements and exactly-once drops are validated after every call; the concrete operators fed with the logged "
+        "answers reproduce the observed state (strict); per-process watchdog for termination")
+
+
 def c03(run):
     return generic_check(run, [("MC_map_w2q.cfg", "MC_map.tla", {"timeout": 300})], [],
         [("drops", ["map:kv16:collide:24:1200:wide", "map:kv24:zero:12:600:iter", "map:kv16:fewpos:20:600:two"]),
-         ("setdrops", ["set:k8t:collide:20:700:set", "set:k8t:fewpos:16:700:setalg"])],
+         ("setdrops", ["set:k8t:collide:20:700:set", "set:k8t:fewpos:16:700:setalg"]),
+         ("dropfault", ["map:kv16:collide:20:700:fault:fault=30,fclass=drop", "table:te24:zero:14:400:table:fault=25,fclass=drop",
+                        "set:k8t:collide:16:400:set:fault=25,fclass=drop"])],
         [("drops2", ["map:kv200:collide:30:3000:wide", "map:kva64:max:20:2000:iter", "map:kv16:onegroup:14:3000:two"]),
          ("dropsg", ["map:kv16:collide:24:3000:wide", "set:k8t:zero:14:2000:setalg"], G)],
-        "every element id and allocator block is followed through every call: drops observed in each call = drops of the abstract machine; block ledger = layouts of the live tables")
+        "every element id and allocator block is followed through every call: drops observed in each call = drops of the abstract machine; block ledger = layouts of the live tables", corpus=True)
 
 
 def c06(run):
@@ -91,7 +149,7 @@ def c08(run):
          ("capset", ["set:k1:collide:20:700:set", "set:k2:fewpos:16:500:set"])],
         [("cap2", ["map:kv24:onegroup:14:3000:cap", "map:kva64:fewpos:30:3000:cap", "map:k1v4:max:12:3000:cap"]),
          ("capg", ["map:kv16:collide:24:3000:cap", "set:k1:zero:14:2000:set"], G)],
-        "capacity()/len()/allocation_size() and allocator events recorded around every call and checked against the capacity contract on tombstoned states")
+        "capacity()/len()/allocation_size() and allocator events recorded around every call and checked against the capacity contract on tombstoned states", corpus=True)
 
 
 def c09(run):
@@ -106,7 +164,9 @@ def c09(run):
 def c10(run):
     return generic_check(run, [("MC_map_w2sel.cfg", "MC_map.tla", {"timeout": 300})], [],
         [("sel", ["map:kv16:collide:40:1200:iter", "map:kv24:zero:24:700:iter"]),
-         ("selset", ["set:k8t:collide:30:800:set"])],
+         ("selset", ["set:k8t:collide:30:800:set", "table:te24:collide:24:600:table"]),
+         ("selfault", ["map:kv16:collide:30:700:iter:fault=30,fclass=drop", "table:te24:zero:14:400:table:fault=25,fclass=drop",
+                       "set:k8t:collide:20:400:set:fault=30,fclass=drop"])],
         [("sel2", ["map:kv16:onegroup:12:3000:iter", "map:kv200:fewpos:60:3000:iter"]),
          ("selg", ["map:kv16:collide:40:3000:iter", "set:k8t:zero:30:2000:set"], G)],
         "retain / extract_if / drain with random predicates (subsets) and early-drop points; predicate calls, yields and post-state validated")
@@ -127,7 +187,7 @@ def c13(run):
          ("churn2", ["map:k4v4:fewpos:14:3000:churn", "map:kv16:mixed:12:2000:churn"])],
         [("churn3", ["map:kv16:collide:12:20000:churn"], {"tlc_timeout": 1800}),
          ("churng", ["map:kv16:zero:10:10000:churn"], {"backend": "generic", "tlc_timeout": 1800})],
-        "model: insert/remove interleavings with bounded live size and unbounded buckets terminate with buckets <= bound; code: long churns, allocation_size bounded at every step")
+        "model: insert/remove interleavings with bounded live size and unbounded buckets terminate with buckets <= bound; code: long churns, allocation_size bounded at every step", corpus=True)
 
 
 def c14(run):
@@ -136,7 +196,7 @@ def c14(run):
          ("entry2", ["map:k4v4:onegroup:14:800:entry", "set:k8t:collide:20:600:set"])],
         [("entry3", ["map:kv24:fewpos:30:4000:entry", "map:kv200:max:20:3000:entry"]),
          ("entryg", ["map:kv16:collide:24:3000:entry"], G)],
-        "every entry / entry_ref / raw_entry / rustc_entry method chain on random states incl. full-load and tombstone-saturated tables, compared with the get/insert/remove semantics of the abstract map")
+        "every entry / entry_ref / raw_entry / rustc_entry method chain on random states incl. full-load and tombstone-saturated tables, compared with the get/insert/remove semantics of the abstract map", corpus=True)
 
 
 def c15(run):
@@ -149,7 +209,10 @@ def c15(run):
 
 CHECKS = {
     "C01": c01,
+    "C02": c02,
     "C03": c03,
+    "C04": c04,
+    "C05": c05,
     "C06": c06,
     "C07": c07,
     "C08": c08,
